@@ -14,6 +14,14 @@ EXTERNAL = re.compile(r"(atomic::Atomic\w*(::<[^>]*>)?::(load|swap|fetch_\w+|com
                       r"::try_lock$|::lock$|thread::(sleep|park|yield_now)|::try_wait$|::wait$|::is_finished$|::poll$|Iterator::next$|::next_back$|::try_next$)")
 
 
+def _block_line(fn, b):
+    for st in fn.stmts(b):
+        if st[0] == "a":
+            return st[3] if len(st) > 3 and isinstance(st[3], int) else 0
+    t = fn.term(b)
+    return t[-1] if isinstance(t[-1], int) else 0
+
+
 def _place_bases(pl):
     out = {pl[0]}
     for x in pl[1:]:
@@ -127,6 +135,27 @@ def analyse_loop(fn, loop):
                 state.add(d)
                 mod_blocks.add(b)
     if external:
+        # a retry loop bounded by a budget iterator (back-off durations, attempts) must draw from it on EVERY iteration: a path from the header
+        # back to it that bypasses the `next()` whose outcome decides the exit can spin forever on an external condition that never changes
+        budget = [b for b in body if fn.term(b)[0] == "call" and re.search(r"Iterator::next$|::next$", fn.term(b)[1].get("res") or fn.term(b)[1].get("path", ""))
+                  and fn.term(b)[3] and fn.term(b)[3][0] in slice_]
+        waits = any(fn.term(b)[0] == "call" and re.search(r"thread::(functions::)?(sleep|park\w*|yield_now)$|::try_lock$", fn.term(b)[1].get("res") or fn.term(b)[1].get("path", "")) for b in body) or \
+            any(c.block in body and re.search(r"thread::(functions::)?(sleep|park\w*|yield_now)$|::try_lock$", c.name) for c in fn.calls())
+        if budget and waits:
+            srcs_ = {s_ for (s_, h_) in loop["backedges"]}
+            seen_, st_ = {H}, [H]
+            bypass = None
+            while st_:
+                b = st_.pop()
+                if b in srcs_ and b not in budget:
+                    bypass = b
+                    break
+                for s_ in fn.succs(b):
+                    if s_ in body and s_ not in seen_ and s_ not in budget and s_ != H:
+                        seen_.add(s_); st_.append(s_)
+            if bypass is not None and H not in budget:
+                return {"ok": False, "kind": "external-budget-bypassed", "line": line, "state": sorted(state),
+                        "reason": "a path from the loop header (line %d) back to it (via line %d) does not draw from the iterator that bounds the retries" % (line, _block_line(fn, bypass))}
         return {"ok": True, "kind": "external", "line": line, "state": sorted(state)}
     # path from H to a back edge source avoiding mod_blocks
     srcs = {s for (s, h) in loop["backedges"]}
